@@ -111,11 +111,7 @@ _public_ int m_mod_set_batch_timeout(m_mod_t *mod, uint64_t timeout_ns) {
     mod->batch.timer.clock_id = CLOCK_MONOTONIC;
     mod->batch.timer.ns = timeout_ns;
     if (timeout_ns != 0) {
-        // If batching by size is disabled
-        if (mod->batch.len == 0) {
-            // Set a maximum value for batching so that only timed batching will be effective
-            mod->batch.len = SIZE_MAX;
-        }
+        /* If batching by size is disabled, only timed batching is effective: see push_evt() */
         return m_mod_src_register_tmr(mod, &mod->batch.timer, M_SRC_INTERNAL | M_SRC_PRIO_HIGH, &mod->batch);
     }
     return 0;
